@@ -193,7 +193,78 @@ pub fn gen_rich_trace(rng: &mut Rng, n_msgs: usize) -> RichTrace {
             m.payload = payload;
             m
         };
-        match rng.below(12) {
+        match rng.below(15) {
+            12 | 13 => {
+                // a segmented SOME/IP transfer (NWST, NWCH*, NWEN) whose numeric parameters come from boundary sets
+                let seg_id = rng.below(4) as u32;
+                let tag = |s: &[u8; 4]| {
+                    let mut v = s.to_vec();
+                    v.push(0);
+                    Val::Ascii(v)
+                };
+                let nr_chunks: u16 = *rng.pick(&[0u16, 1, 1, 2, 2, 3, 4, 0xfffe, 0xffff]);
+                let chunk_size: u16 = *rng.pick(&[0u16, 0, 1, 2, 8, 16, 16, 17, 0xffff]);
+                let hdr = {
+                    let n = *rng.pick(&[9usize, 9, 10, 12, 8, 0]);
+                    rng.bytes(n)
+                };
+                let mtin = *rng.pick(&[1u8, 2]);
+                let msin = 1 | (2 << 1) | (mtin << 4);
+                let two = |rng: &mut Rng, v: u16| if rng.chance(1, 12) { Val::Raw(rng.bytes(3)) } else { Val::Raw(v.to_le_bytes().to_vec()) };
+                let idv = |rng: &mut Rng| if rng.chance(1, 12) { Val::Raw(rng.bytes(3)) } else { Val::Raw(seg_id.to_le_bytes().to_vec()) };
+                if rng.chance(7, 8) {
+                    let a_id = idv(rng);
+                    let a_nr = two(rng, nr_chunks);
+                    let a_cs = two(rng, chunk_size);
+                    let (p, _) = encode(&[tag(b"NWST"), a_id, Val::Raw(hdr), Val::U32(0), a_nr, a_cs], be);
+                    pending.push(mk(rng, msin, 6, b"NWT\0", b"TC\0\0", p));
+                }
+                let n_ch = rng.usize_below(4).min(nr_chunks as usize + 1);
+                // a SOME/IP header + payload spread over the chunks
+                let mut body = vec![0u8; 16];
+                body[0..4].copy_from_slice(&[0x00, 0x7b, 0x80, 0x01]);
+                body.extend_from_slice(&rng.bytes(24));
+                for c in 0..n_ch {
+                    let chunk_nr: u16 = if rng.chance(5, 6) { c as u16 } else { *rng.pick(&[0u16, 1, 0xffff, 0xfffe]) };
+                    let len = if rng.chance(3, 4) { chunk_size as usize % 64 } else { rng.usize_below(20) };
+                    let data: Vec<u8> = body.iter().cycle().skip(c * len).take(len).cloned().collect();
+                    let a_id = idv(rng);
+                    let a_nr = two(rng, chunk_nr);
+                    let (p, _) = encode(&[tag(b"NWCH"), a_id, a_nr, Val::Raw(data)], be);
+                    pending.push(mk(rng, msin, 4, b"NWT\0", b"TC\0\0", p));
+                }
+                if rng.chance(3, 4) {
+                    let a_id = idv(rng);
+                    let (p, _) = encode(&[tag(b"NWEN"), a_id], be);
+                    pending.push(mk(rng, msin, 2, b"NWT\0", b"TC\0\0", p));
+                }
+            }
+            14 => {
+                // a file transfer whose numeric parameters come from boundary sets (sizes, package counts, package numbers)
+                let size: u32 = *rng.pick(&[0u32, 1, 7, 16, 40, 0xffff, u32::MAX]);
+                let bs: u32 = *rng.pick(&[0u32, 1, 4, 16, 1024, u32::MAX]);
+                let npk: u32 = if rng.chance(1, 2) && bs > 0 { ((size as u64 + bs as u64 - 1) / bs as u64) as u32 } else { *rng.pick(&[0u32, 1, 2, 3, u32::MAX]) };
+                let tag = |s: &[u8; 4]| {
+                    let mut v = s.to_vec();
+                    v.push(0);
+                    Val::Ascii(v)
+                };
+                let (p, _) = encode(&[tag(b"FLST"), Val::U32(ft_serial), Val::Str("bounds.bin".into()), Val::U32(size), Val::Str("date".into()), Val::U32(npk), Val::U32(bs), tag(b"FLST")], be);
+                pending.push(mk(rng, 0x41, 8, b"SYS\0", b"FILE", p));
+                let n_da = rng.usize_below(4);
+                for i in 0..n_da {
+                    let nr: i32 = if rng.chance(2, 3) { i as i32 + 1 } else { *rng.pick(&[0i32, -1, 1, 2, i32::MAX, i32::MIN]) };
+                    let dl = if rng.chance(2, 3) { (bs as usize).min(48) } else { rng.usize_below(20) };
+                    let data = rng.bytes(dl);
+                    let (p, _) = encode(&[tag(b"FLDA"), Val::U32(ft_serial), Val::I32(nr), Val::Raw(data), tag(b"FLDA")], be);
+                    pending.push(mk(rng, 0x41, 5, b"SYS\0", b"FILE", p));
+                }
+                if rng.chance(3, 4) {
+                    let (p, _) = encode(&[tag(b"FLFI"), Val::U32(ft_serial), tag(b"FLFI")], be);
+                    pending.push(mk(rng, 0x41, 3, b"SYS\0", b"FILE", p));
+                }
+                ft_serial += 1;
+            }
             0 | 1 | 2 => {
                 // verbose log with typed args
                 let n = rng.usize_below(5);
